@@ -1,9 +1,17 @@
 CONFIG = dict(
     coqfiles=["Props/C18.v"],
-    n_quick=4000, n_thorough=200000,
-    rule="random authorizer trees (depth<=3 quick, <=4 thorough, 0-4 members per 'any', verdicts allow/deny/13/14/16 per name) x one operation; "
-         "non-trivial = tree of the operation has depth>=1 (a real 'any' combinator) ; distinct = distinct input",
-    modelled=["leaf authorizers answer each instance name independently of the batch (oracle table)",
+    n_quick=6000, n_thorough=200000,
+    rule="random authorizer trees (depth<=3 quick, <=4 thorough, 0-4 members per 'any') x one operation. 40%: scripted leaves only (verdicts "
+         "allow/deny/13/14/16 per name) over the fixed alphabet; 60%: trees with instance_name_prefix leaves built through the configuration "
+         "factory (30% a bare prefix authorizer per operation kind, 30% 'any' over prefix authorizers, 40% mixed with scripted leaves), allowed-prefix "
+         "sets (0-4 prefixes: empty name, single/multi-component, nested, siblings sharing a string prefix such as team/prod vs team/production) and a "
+         "name alphabet chosen around them (strict ancestors, the prefix, descendants, near misses, unrelated). "
+         "non-trivial = tree of the operation has depth>=1 (a real 'any' combinator) or contains a prefix leaf; distinct = distinct input. "
+         "class = op/depth/result/leaf kinds[/relation of the involved names to the allowed prefixes: anc = an uncovered non-empty strict ancestor "
+         "of an allowed prefix (interior trie node), near = uncovered string extension, uncov, cov]",
+    modelled=["scripted leaf authorizers answer each instance name independently of the batch (oracle table)",
+              "prefix leaves: the C19 trie model (Set of every allowed prefix, then the ContainsPrefix loop) on component lists; "
+              "names are split like the code does (valid instance names only: no empty components)",
               "Go map iteration order in FindMissing: any order of distinct names (agreement on the returned code is membership)",
               "error messages are not compared, only gRPC codes"],
 )
